@@ -263,7 +263,7 @@ Program gen_core(const std::string &campaign, uint64_t seed, bool thorough) {
     p.set("teardown", (long)r.below(2));
     p.set("keeprefs", r.chance(campaign == "C04" || campaign == "C20" ? 0.5 : 1.0) ? 1 : 0);
     p.set("nufd", 3);
-    if (campaign == "C09") p.set("fdpermod", 1);
+    if (campaign == "C09" || campaign == "C20") p.set("fdpermod", 1);   // one owner per user descriptor (two auto-closing owners is the program's own double close)
     g.tasks_in_program = campaign == "C04" ? r.chance(0.6) : r.chance(0.3);
     p.set("tasks", g.tasks_in_program ? 1 : 0);
     bool dispatch_mode = r.chance(0.4);
